@@ -505,7 +505,22 @@ func c13Bounds(p *core.Program, r *core.Report, t *types.Named) {
 				ii := pa.Index("INSTALL")
 				if ii < 0 {
 					// nothing installed: the table must have been found large enough
-					if !(pa.HasArg("COND", cc(pn, ">", "len(table)", false)) || pa.HasArg("COND", cc("len(table)", "<", pn, false)) || pa.HasArg("COND", cc("len(table)", ">=", pn, true)) || pa.HasArg("COND", cc("cap(table)", ">=", pn, true))) {
+					// (the table's length may have been taken into a local first: oldSize := len(table))
+					lens := []string{"len(table)", "cap(table)"}
+					for _, e := range pa {
+						if e.Kind == "ASSIGN" {
+							if kv := strings.SplitN(e.Arg, "=", 2); len(kv) == 2 && (kv[1] == "len(table)" || kv[1] == "cap(table)") {
+								lens = append(lens, kv[0])
+							}
+						}
+					}
+					largeEnough := false
+					for _, ln := range lens {
+						if pa.HasArg("COND", cc(pn, ">", ln, false)) || pa.HasArg("COND", cc(ln, "<", pn, false)) || pa.HasArg("COND", cc(ln, ">=", pn, true)) || pa.HasArg("COND", cc(pn, "<=", ln, true)) {
+							largeEnough = true
+						}
+					}
+					if !largeEnough {
 						probs = append(probs, "returns without growing on a path that did not find the table large enough: "+pa.String())
 					}
 					continue
